@@ -538,6 +538,9 @@ def owner_props(job, desc):
 def check_property(prop, jobs, tier, level, explanation, trusted, seed=0, quiet=False):
     """run all jobs of a property; print VIOLATION / KNOWN-FINDING lines; write evidence; return exit code"""
     t0 = time.time()
+    if not jobs:
+        print("ERROR %s: no obligation sets selected" % prop)
+        return 2
     scratch = tempfile.mkdtemp(prefix="cellov.")
     known = Known(os.path.join(VERIF, "KNOWN_FINDINGS.txt"))
     violations = []
